@@ -32,6 +32,7 @@ Proof. exact bijection_walk_order. Qed.
    stem.rs, none of whose directory components is target or .git, and that carry an
    attribute with path tauri::command or command *)
 Theorem C03_spec_membership : forall (l : layout) (p : list str) (f : fn_def),
+  layout_ok l = true ->
   In (p, f) (annotated_spec l) <->
   exists items, In (p, Parsed items) (walk l) /\ spec_accept p = true /\ In (RFn f) items /\ annotated f = true.
 Proof. exact in_annotated_spec. Qed.
@@ -92,6 +93,24 @@ Theorem C03_build_history : forall (root : str) (ls : list layout) (st : option 
   Forall (fun l => layout_ok l = true) ls ->
   map (map wobs) (build_history root st ls) = map (fun l => map spec_obs (annotated_spec l)) ls.
 Proof. exact build_history_spec. Qed.
+
+(* both routes (the CLI and the build script), forced or not, mixed in one history into one
+   output directory, trees returning to earlier ones: outside the recorded class C03-3 (a
+   CLI run that discovers no command while wrappers of an earlier run are there), after
+   EVERY run the wrappers are those of the specification for the tree of that run *)
+Theorem C03_history : forall (root : str) (steps : list step) (st : option (list cmd)),
+  Forall (fun s => layout_ok (s_tree s) = true) steps ->
+  kf_cli_stale root st steps = false ->
+  map (map wobs) (history root st steps) = map (fun s => map spec_obs (annotated_spec (s_tree s))) steps.
+Proof. exact history_spec. Qed.
+
+(* C03-3: the CLI leaves a stale commands.ts when the last command is gone *)
+Theorem C03_cli_stale_refuted :
+  Forall (fun s => layout_ok (s_tree s) = true) w_stale_steps /\
+  kf_cli_stale (L "src") None w_stale_steps = true /\
+  map (map wobs) (history (L "src") None w_stale_steps) = [[(L "hello", L "Promise<string>")]; [(L "hello", L "Promise<string>")]] /\
+  map (fun s => map spec_obs (annotated_spec (s_tree s))) w_stale_steps = [[(L "hello", L "Promise<string>")]; []].
+Proof. exact cli_stale_refuted. Qed.
 
 (* ---- non-vacuity ---- *)
 Definition ex_fn (name : string) (attrs : list (list str)) : fn_def :=
@@ -158,6 +177,28 @@ Example C03_ex_history :
   map (map (fun w => w_invoke w)) (build_history (L "src") stale [l1; l1; l2; []; l1])
   = [[L "a"]; [L "a"]; [L "a"; L "b"]; []; [L "a"]].
 Proof. vm_compute. split; reflexivity. Qed.
+(* plain run on tree A, forced run on tree B, plain run on exactly A again (the forced run has
+   saved the cache, so the third run is no hit), over both routes; premises of C03_history *)
+Example C03_ex_force_history :
+  let a := [NFile (L "a.rs") (Parsed [RFn (ex_fn "a" [[L "command"]])])] in
+  let b := [NFile (L "a.rs") (Parsed [RFn (ex_fn "b" [[L "command"]]); RFn (ex_fn "c" [[L "command"]])])] in
+  let steps := [ {| s_route := RCli; s_force := false; s_tree := a |}; {| s_route := RCli; s_force := true; s_tree := b |};
+                 {| s_route := RCli; s_force := false; s_tree := a |}; {| s_route := RBuild; s_force := false; s_tree := a |};
+                 {| s_route := RBuild; s_force := true; s_tree := [] |}; {| s_route := RCli; s_force := false; s_tree := [] |} ] in
+  kf_cli_stale (L "src") None steps = false /\
+  map (map (fun w => w_invoke w)) (history (L "src") None steps) = [[L "a"]; [L "b"; L "c"]; [L "a"]; [L "a"]; []; []].
+Proof. vm_compute. split; reflexivity. Qed.
+(* prologues: a shebang line, a byte order mark, both, inner attributes and comments are fine
+   for syn::parse_file; a shebang after a blank line or after the items began, a byte order mark
+   after the shebang and a frontmatter block make the file unparsable (skipped, alone) *)
+Definition pf (n : string) (p : list pro) : node := NFile (L n) (Source p [RFn (ex_fn n [[L "command"]])]).
+Example C03_ex_prologues :
+  let l := [pf "a.rs" [PShebang]; pf "b.rs" [PBom]; pf "c.rs" [PBom; PShebang; PBlank; PInnerAttr; PComment];
+            pf "d.rs" [PBlank; PShebang]; pf "e.rs" [PShebang; PBom]; pf "f.rs" [PFrontmatter]; pf "g.rs" [PInnerAttr; PShebang];
+            pf "h.rs" [PDocInner; PComment]] in
+  layout_ok l = true /\ layout_ok [pf "x.rs" [PBom; PBom]] = false /\
+  map (fun w => w_invoke w) (emit (analyze (L "src") l)) = [L "a.rs"; L "b.rs"; L "c.rs"; L "h.rs"].
+Proof. vm_compute. repeat split; reflexivity. Qed.
 (* the template text of Model/Pipeline.v for these commands, lexed and parsed by the
    specification parser, reads back as the wrapper records of the abstract model *)
 Example C03_ex_tokens_read_back :
@@ -177,3 +218,5 @@ Print Assumptions C03_root_path_fixed.
 Print Assumptions C03_notutf8_fixed.
 Print Assumptions C03_oracle_exact.
 Print Assumptions C03_build_history.
+Print Assumptions C03_history.
+Print Assumptions C03_cli_stale_refuted.
